@@ -508,6 +508,13 @@ X6_TRANSPARENT_CACHES = {("packaging._manylinux", "_get_glibc_version")}
 # context managers that are probes: `with P(a) as f: body` is `f = P(a)` followed by the body (the manager of `_parse_elf`
 # yields the parsed file or None; nothing in the bodies can raise what it would swallow)
 X6_ENV_CONTEXTS = {"_parse_elf"}
+SELECTED += [
+    ("ELFFile.__init__", "packaging._elffile", "ELFFile.__init__"),
+    ("ELFFile.interpreter", "packaging._elffile", "ELFFile.interpreter"),
+]
+X6_ELF_IMPORT = "PkgModel.PyElf"
+# `self._read(fmt)` is the primitive `PyElf.read_struct` only while `ELFFile._read` has this source (sha256 over its ast)
+X6_ELF_READ_GUARD = "ad49ef43b6d602e7ae6cbfa4457d008915cdfaaef611d7ec4df2b98d8bd0fc3f"
 # --- x6 end -----------------------------------------------------------------------------------------------------------
 
 
@@ -3754,6 +3761,19 @@ class Fn:
         return None
 
     def x6_elf_call(self, e, kws):
+        f, a = e.func, e.args
+        prim = {"__x6_seek": "PyElf.seek", "__x6_read": "PyElf.read", "__x6_fsdecode": "PyElf.fsdecode",
+                "__x6_strip_chars": "PyElf.str_strip_chars", "__x6_bytes": "PyElf.bytes_of", "__x6_read_struct": "PyElf.read_struct"}
+        if f.id == "__x6_read_struct":
+            impl = self.ctx.lookup(self.owner, "_read") if self.owner is not None else None
+            if not inspect.isfunction(impl) or _fn_digest(impl) != X6_ELF_READ_GUARD:
+                raise Unsupported("ELFFile._read is not the method the primitive PyElf.read_struct mirrors")
+        if f.id in prim:
+            self.ctx.imports.add(X6_ELF_IMPORT)
+            return False, prim[f.id] + "".join(" " + self.val(x) for x in a)
+        if f.id == "__x6_bytes_lit":
+            self.ctx.imports.add(X6_ELF_IMPORT)
+            return True, "(PyElf.ofBytes [" + ", ".join(str(b) for b in bytes.fromhex(a[0].value)) + "])"
         return None
     # ================================================================================================ x6 end
 
@@ -3774,6 +3794,9 @@ class _X6Rewrite(ast.NodeTransformer):
             for i, fld in enumerate(c._fields):
                 idx.setdefault(fld, set()).add(i)
         self.nt_index = {fld: next(iter(s)) for fld, s in idx.items() if len(s) == 1}
+        self.elf = fn.pyfunc.__module__ == "packaging._elffile"
+        self.me = fn.node.args.args[0].arg if fn.node.args.args else None
+        self.in_return = False
 
     def run(self, node):
         self.local_names = {n.id for n in ast.walk(node) if isinstance(n, ast.Name) and isinstance(n.ctx, ast.Store)} \
@@ -3796,6 +3819,7 @@ class _X6Rewrite(ast.NodeTransformer):
                     for a in ast.walk(node):
                         if isinstance(a, ast.Assign) and a.value is vals[0]:
                             a.value = ast.copy_location(ast.Tuple(elts=list(vals[0].elts), ctx=ast.Load()), vals[0])
+        self.seek_first = self.elf and node.name != "__init__" and self.seeks_before_reads(node.body)
         node.body = self.block(node.body)
         return node
 
@@ -3842,6 +3866,84 @@ class _X6Rewrite(ast.NodeTransformer):
         return node
 
     def visit_Assign(self, node):
+        pre = []
+        if self.elf and self.is_self_call(node.value, "_read") and len(node.value.args) == 1 and self.seek_first:
+            # every read of this method follows a `seek`: the position a read leaves behind is never observed
+            fmt = self.visit(node.value.args[0])
+            node.value = ast.Subscript(value=self.call("__x6_read_struct", ast.Name(id=self.me, ctx=ast.Load()), fmt),
+                                       slice=ast.Constant(0), ctx=ast.Load())
+            return self.x6_visit_assign_done(node)
+        if self.elf and self.is_self_call(node.value, "_read") and len(node.value.args) == 1:
+            # `x = self._read(fmt)`: the file position moves, so `self` is rebound together with the result
+            t = self.fresh()
+            self.local_names.add(t)
+            fmt = self.visit(node.value.args[0])
+            pre = [ast.copy_location(ast.Assign(
+                targets=[ast.Tuple(elts=[ast.Name(id=t, ctx=ast.Store()), ast.Name(id=self.me, ctx=ast.Store())], ctx=ast.Store())],
+                value=self.call("__x6_read_struct", ast.Name(id=self.me, ctx=ast.Load()), fmt)), node)]
+            node.value = ast.Name(id=t, ctx=ast.Load())
+        r = self.x6_visit_assign(node)
+        return pre + (r if isinstance(r, list) else [r]) if pre else r
+
+    def x6_visit_assign_done(self, node):
+        node.targets = [self.visit(t) for t in node.targets]
+        return node
+
+    def uses_file(self, st):
+        return any((self.is_self_call(n, "_read") or self.is_file_call(n, "read")) for n in ast.walk(st))
+
+    def seeks_before_reads(self, stmts):
+        """every statement that reads the file comes directly after a `self._f.seek(…)` statement of the same block (a `try` whose
+        first statement is the only reader counts as that statement)"""
+        for i, st in enumerate(stmts):
+            if not self.uses_file(st):
+                continue
+            prev_seek = i > 0 and isinstance(stmts[i - 1], ast.Expr) and self.is_file_call(stmts[i - 1].value, "seek")
+            if isinstance(st, (ast.Assign, ast.Return)):
+                if not prev_seek:
+                    return False
+            elif isinstance(st, ast.Try) and prev_seek and st.body and isinstance(st.body[0], ast.Assign) \
+                    and not any(self.uses_file(x) for x in st.body[1:] + st.orelse + st.finalbody) \
+                    and not any(self.uses_file(x) for h in st.handlers for x in h.body):
+                continue
+            elif isinstance(st, (ast.For, ast.While, ast.If, ast.Try, ast.With)):
+                blocks = [getattr(st, k) for k in ("body", "orelse", "finalbody") if getattr(st, k, None)]
+                blocks += [h.body for h in getattr(st, "handlers", [])]
+                if not all(self.seeks_before_reads(b) for b in blocks):
+                    return False
+            else:
+                return False
+        return True
+
+    def is_self_call(self, e, attr):
+        return isinstance(e, ast.Call) and isinstance(e.func, ast.Attribute) and e.func.attr == attr \
+            and isinstance(e.func.value, ast.Name) and e.func.value.id == self.me and not e.keywords
+
+    def is_file_call(self, e, attr):
+        return isinstance(e, ast.Call) and isinstance(e.func, ast.Attribute) and e.func.attr == attr and not e.keywords \
+            and isinstance(e.func.value, ast.Attribute) and e.func.value.attr == "_f" \
+            and isinstance(e.func.value.value, ast.Name) and e.func.value.value.id == self.me
+
+    def visit_Expr(self, node):
+        if self.elf and self.is_file_call(node.value, "seek") and len(node.value.args) == 1:
+            off = self.visit(node.value.args[0])
+            return ast.copy_location(ast.Assign(targets=[ast.Name(id=self.me, ctx=ast.Store())],
+                                                value=self.call("__x6_seek", ast.Name(id=self.me, ctx=ast.Load()), off)), node)
+        return self.generic_visit(node)
+
+    def visit_Return(self, node):
+        self.in_return = True
+        try:
+            return self.generic_visit(node)
+        finally:
+            self.in_return = False
+
+    def visit_Constant(self, node):
+        if self.elf and isinstance(node.value, bytes):
+            return ast.copy_location(self.call("__x6_bytes_lit", ast.Constant(node.value.hex())), node)
+        return node
+
+    def x6_visit_assign(self, node):
         node = self.generic_visit(node)
         if len(node.targets) == 1 and isinstance(node.targets[0], (ast.Tuple, ast.List)):
             elts = node.targets[0].elts
@@ -3881,6 +3983,15 @@ class _X6Rewrite(ast.NodeTransformer):
     def visit_Call(self, node):
         node = self.generic_visit(node)
         f = node.func
+        if self.elf:
+            if self.is_file_call(node, "read") and len(node.args) == 1 and self.in_return:
+                return ast.copy_location(self.call("__x6_read", ast.Name(id=self.me, ctx=ast.Load()), node.args[0]), node)
+            if _dotted(f) == ["os", "fsdecode"] and self.is_global("os") and len(node.args) == 1 and not node.keywords:
+                return ast.copy_location(self.call("__x6_fsdecode", node.args[0]), node)
+            if isinstance(f, ast.Attribute) and f.attr == "strip" and len(node.args) == 1 and not node.keywords:
+                return ast.copy_location(self.call("__x6_strip_chars", f.value, node.args[0]), node)
+            if isinstance(f, ast.Name) and f.id == "bytes" and f.id not in self.local_names and len(node.args) == 1 and not node.keywords:
+                return ast.copy_location(self.call("__x6_bytes", node.args[0]), node)
         if isinstance(f, ast.Name) and self.is_global(f.id) and self.g[f.id] in self.nts.values():
             c = self.g[f.id]
             if len(node.args) == 1 and isinstance(node.args[0], ast.Starred) and not node.keywords:
